@@ -1220,6 +1220,14 @@ func (e *Env) convertTo(v V, t types.Type) V {
 		}
 		return x.convert(nil2frame(), e.cur, v, t, 0)
 	}
+	if v.T != nil {
+		// string(b) and []byte(s) in a clause mean what they mean in the code
+		_, fromSlice := v.T.Underlying().(*types.Slice)
+		_, toSlice := t.Underlying().(*types.Slice)
+		if (fromSlice && isString(t)) || (isString(v.T) && toSlice) {
+			return x.convert(nil2frame(), e.cur, v, t, 0)
+		}
+	}
 	return x.convertStructural(v, t)
 }
 
